@@ -63,7 +63,7 @@ def term_obligations(run, cls):
                    f"is_monotonic() returns {declared} in the source; the contract {'has' if tc.monotone else 'has no'} monotonicity clause", fn=f"term.{cls}.is_monotonic"))
         if declared and tc.monotone:
             inc, dec = tc.monotone(A, P)
-            add(Obl(f"{fq}/ensures.monotone", pre + [cx2, xr.le(x, x2)] + ax.axioms(),
+            add(Obl(f"{fq}/ensures.monotone", pre + [cx2, xr.le(x, x2)] + ax.axioms() + ax.square_hints(),
                     z3.And(z3.Implies(inc, xr.le(y, y2)), z3.Implies(dec, xr.ge(y, y2))), fn=fq, meta=m(rp("monotone", ["x", "x2"]))))
     except Unsupported as ex_:
         add(undecided(f"{fq}/subset", f"outside the verified subset: {ex_}", fn=fq))
